@@ -16,9 +16,9 @@ Definition gate_ok (m : mmsg) : Prop :=
 
 Definition rtsp_inv (s : rtsp_st) : Prop := Forall gate_ok (rs_cache s).
 
-Lemma video_packets_ok hevc payload : is_ok (video_packets hevc payload).
+Lemma video_payloads_ok hevc payload : is_ok (video_payloads hevc payload).
 Proof.
-  unfold video_packets. destruct (split_avcc_cases payload) as [[nals [-> _]]|[e [-> He]]]; [eexists; reflexivity|].
+  unfold video_payloads. destruct (split_avcc_cases payload) as [[nals [-> _]]|[e [-> He]]]; [eexists; reflexivity|].
   apply N.eqb_neq in He. rewrite He. eexists; reflexivity.
 Qed.
 
@@ -47,7 +47,7 @@ Proof.
     pose proof (audio_packer_cache s) as Hc. destruct (rtsp_audio_packer s) as [s1 has]. cbn [fst] in Hc.
     destruct (negb has); [do 2 eexists; split; [reflexivity|exact Hc]|].
     destruct (acid_ok m) as [c ->]; [lia|]. cbn [bind].
-    destruct (_ || _); rewrite from_ok by lia; cbn [bind]; do 2 eexists; (split; [reflexivity|exact Hc]). }
+    destruct (_ || _); cbn zeta; rewrite from_ok by lia; cbn [bind]; do 2 eexists; (split; [reflexivity|exact Hc]). }
   destruct (mm_type m =? t_video) eqn:Tv; [|do 2 eexists; split; reflexivity].
   apply N.eqb_eq in Tv. specialize (Gv Tv).
   destruct (rs_sps s) as [sps|]; [|do 2 eexists; split; reflexivity].
@@ -68,7 +68,7 @@ Proof.
   assert (Hle : (index <= length (mm_pay m))%nat).
   { destruct en; cbn [andb] in G; [apply Nat.leb_gt in G; lia|]. rewrite (Hen5 eq_refl). lia. }
   rewrite from_ok by exact Hle. cbn [bind].
-  destruct (video_packets_ok (negb (rs_video_pt s =? pt_avc)) (skipn index (mm_pay m))) as [n ->]. cbn [bind].
+  destruct (video_payloads_ok (negb (rs_video_pt s =? pt_avc)) (skipn index (mm_pay m))) as [n ->]. cbn [bind].
   do 2 eexists; split; reflexivity.
 Qed.
 
@@ -87,9 +87,9 @@ Proof.
   cbn [rs_asc rs_cache rs_done rs_vps rs_sps rs_pps rs_audio_pt rs_video_pt rs_apacker rs_vpacker].
   destruct (rs_asc s) as [asc|].
   - destruct (short asc 2 || (12 <? asc_sfi asc)); [do 2 eexists; split; [reflexivity|exact Hinv]|].
-    match goal with |- context [rtsp_remux_all fx false ?s2 ?l 0] => destruct (rtsp_remux_all_ok l s2 0 Hinv) as [[s3 n] ->] end.
+    match goal with |- context [rtsp_remux_all fx false ?s2 ?l []] => destruct (rtsp_remux_all_ok l s2 [] Hinv) as [[s3 n] ->] end.
     cbn [bind]. do 2 eexists; split; [reflexivity|constructor].
-  - match goal with |- context [rtsp_remux_all fx false ?s2 ?l 0] => destruct (rtsp_remux_all_ok l s2 0 Hinv) as [[s3 n] ->] end.
+  - match goal with |- context [rtsp_remux_all fx false ?s2 ?l []] => destruct (rtsp_remux_all_ok l s2 [] Hinv) as [[s3 n] ->] end.
     cbn [bind]. do 2 eexists; split; [reflexivity|constructor].
 Qed.
 
